@@ -24,8 +24,17 @@ that is complete in CoAP terms (the caller gets exactly that response, nothing m
 A SUCCESSFUL response without Block1 option to a non-final block is a sequencing violation (until
 round 4 it had been put into the third class: a mistake of the verification, withdrawn).
 Requests are also sent with the application's size hint `block2=(0, False, szx)` (modelled:
-`Cfg.hint2`) and with the deprecated `block1=(0, False, szx)` hint (oracle only: the driver
-answers out-of-model).
+`Cfg.hint2`) and with the deprecated `block1=(0, False, szx)` hint (modelled since round 4:
+`Cfg.hint1`), the latter also with an empty body.
+
+Round 4: the client's maximum exponent ranges over 0..7 -- 7 is a remote that does BERT (RFC 8323 section 6,
+`maximum_block_size_exp` 7, what a TCP/WebSocket remote reports; `maximum_payload_size` 1124 / 2148 / 4196):
+its first Block1 block is a BERT block of 1024 * (maximum_payload_size // 1024) bytes.  The reference server
+understands BERT requests and answers them with its own exponents 0..6 (modelled in Lean too, closed loop), or
+is a BERT peer that echoes 7 and serves BERT Block2 blocks of k KiB (compared through `runClient`, judged by the
+oracle).  Two deviations go on for good instead of hitting one exchange (`hollow`: every Block2 response says
+"more" and is empty; `confused`: pieces of 2x / 3x the announced size numbered as pieces), and a transfer that is
+still exchanging blocks after MAX_EXCHANGES exchanges is cut off: the verdict is "the request does not terminate".
 """
 import asyncio
 import logging
@@ -33,15 +42,16 @@ import logging
 from common import compare, load_corpus, HarnessError
 import c05_refserver as ref
 
-RULE = ("Cases = (request body length, response body length, client maximum size exponent, "
+RULE = ("Cases = (request body length, response body length, client maximum size exponent 0..7 (7 = BERT remote), "
         "maximum payload size, per-exchange size exponents chosen by the reference server, "
         "optional deviation of the server, optional Observe:0 in the request, optional size hints block2=(0,0,szx) / "
         "block1=(0,0,szx) preset by the application). Corpus first; then the full "
         "boundary table: body lengths "
         "0,1,15,16,17,...,1023,1024,1025,1123,1124,1125,2047,2048,2049,multi-kB x client szx 0..6 "
         "x reduction schedules for uploads and x server szx 0..6 x client szx for downloads, every "
-        "deviation kind (27: 17 sequencing violations incl. 2.31 without Block1, a Block2 block larger than "
-        "requested and a first block larger than the application's hint, 6 single complete responses that end the "
+        "deviation kind (29: 19 sequencing violations incl. 2.31 without Block1, a Block2 block larger than "
+        "requested, a first block larger than the application's hint, and the two that go on for good - every Block2 "
+        "response 'more' and empty from the n-th on; pieces of 2x/3x/4x the announced size -, 6 single complete responses that end the "
         "transfer - a response without Block1 option being a violation when it is successful and answers a non-final "
         "block -, 3 harmless oddities incl. Observe in an "
         "intermediate 2.31, silence) at first/middle/last position; no-Block1 responses with codes "
@@ -49,16 +59,24 @@ RULE = ("Cases = (request body length, response body length, client maximum size
         "with Block1 hint; Block2 hints 0..6 x first-response exponent below/equal/above the hint x one-block and "
         "multi-block representations x with/without upload; requests with Observe:0 whose upload needs "
         "several blocks x server putting Observe into the n-th / every 2.31 / the final response, "
+        "BERT remotes (client maximum 7) x maximum payload size 1124/2148/4196 x body lengths around every KiB "
+        "boundary x servers that answer the BERT block with exponent 6 / 5 / small / reduce again later and BERT "
+        "peers that keep 7 or go down to 6 / 4 / 2 at the second or third block, BERT downloads in blocks of 1/2/4 "
+        "KiB with reductions to 6 / 3, every deviation kind against a BERT client; the deprecated Block1 hint 0..6 x "
+        "bodies of 0 / 1 / one block / one block + 1 bytes; "
         "BlockwiseTuple arithmetic on all "
-        "(szx, max) pairs; then random cases from the seeded PRNG (lengths drawn around block "
-        "boundaries, random per-block reductions, <= 40 % deviating). Non-trivial: at least two "
+        "(szx 0..7, max 0..7) pairs x payload sizes 0, 1, unit-1 .. 3 units; then random cases from the seeded PRNG (lengths drawn around block "
+        "boundaries, random per-block reductions, <= 35 % deviating). Non-trivial: at least two "
         "block exchanges happened; distinct by the full case description.")
 TRUSTED = ["harness/c05_refserver.py (independent RFC 7959 reference server) and the fake "
            "RequestInterface/EndpointAddress of harness/props/C05.py"]
-ASSUMPTIONS = ["size exponent 7 (BERT) does not occur (UDP); the application presets no Block options other than "
-               "the size hints block2=(0, False, szx) (modelled) and block1=(0, False, szx) (deprecated; oracle only, "
-               "never with an empty body: _extract_block raises BadRequest on it) - a request that asks for a "
-               "particular block of the response itself is not generated",
+ASSUMPTIONS = ["a remote that does BERT (maximum_block_size_exp 7) takes at least 1 KiB of payload "
+               "(maximum_payload_size >= 1024; RFC 8323: BERT needs Max-Message-Size > 1152) and its limits do not "
+               "change during a transfer (on a fresh TCP connection they do when the peer's CSM arrives: "
+               "rfc8323common.py, outside the anchors)",
+               "the application presets no Block options other than "
+               "the size hints block2=(0, False, szx) and block1=(0, False, szx) (deprecated), both modelled "
+               "- a request that asks for a particular block of the response itself is not generated",
                "requests carrying Observe:0 are run through the same correspondence and oracle (the Lean client "
                "machine has no Observe option: it claims that the option has no influence on the block requests "
                "and on the response, which is what is compared); what an observation delivers AFTER the first "
@@ -66,6 +84,11 @@ ASSUMPTIONS = ["size exponent 7 (BERT) does not occur (UDP); the application pre
                "every block request gets at most one response (loss/duplication of single "
                "exchanges is the message layer's job: C03/C04)",
                "a changed representation is distinguishable by its ETag"]
+
+# No conforming transfer of the generators needs more exchanges (bodies <= ~6 kB in 16-byte blocks, both
+# directions); a transfer that is still exchanging blocks after that many is cut off and reported as
+# "runaway": the oracle's verdict is that the request does not terminate.
+MAX_EXCHANGES = 1200
 
 LENGTHS = [0, 1, 15, 16, 17, 31, 32, 33, 63, 64, 65, 127, 128, 129, 255, 256, 257, 511, 512, 513,
            1023, 1024, 1025, 1123, 1124, 1125, 2047, 2048, 2049, 3000, 4113]
@@ -155,15 +178,22 @@ class World:
         req = pipe.request
         v = self.wire_view(req)
         self.reqs.append(v)
+        if len(self.reqs) > MAX_EXCHANGES:
+            self.runaway = True
+            if not self.stalled.done():
+                self.stalled.set_result(None)
+            return
         reply = self.server.handle((v[0], v[1], v[3]))
         if reply is None:
             if not self.stalled.done():
                 self.stalled.set_result(None)
             return
         self.replies.append(reply)
-        # a response's remote is a new address object of the same transport (default maximum
-        # exponent, same maximum payload size) or the very object of the request
-        remote = self.Remote(None, req.remote.maximum_payload_size) if self.fresh_remote else req.remote
+        # a response's remote is a new address object of the same transport (the transport's maximum
+        # exponent: 6, or 7 on a transport that does BERT; same maximum payload size) or the very object
+        # of the request
+        remote = (self.Remote(7 if self.transport_bert else None, req.remote.maximum_payload_size)
+                  if self.fresh_remote else req.remote)
         # like the token manager: a response with an Observe option to a request with one is not the last
         is_last = reply.observe is None or req.opt.observe is None
         pipe.add_response(self.to_message(reply, remote), is_last=is_last)
@@ -187,7 +217,7 @@ class World:
         if not fut.done():
             fut.cancel()
             await asyncio.sleep(0)
-            return ("pending",)
+            return ("runaway", len(self.reqs)) if self.runaway else ("pending",)
         exc = fut.exception()
         # let the runner task finish; an observation that was established is given up
         await asyncio.sleep(0)
@@ -204,8 +234,10 @@ class World:
         etag = None if case["etag"] is None else bytes.fromhex(case["etag"])
         self.server = ref.RefServer(ref.pattern(case["rlen"], case["rseed"]), etag, case["code"],
                                     case["choices"], case["default"], case.get("limit"),
-                                    case.get("mis"), case.get("obs_final"))
+                                    case.get("mis"), case.get("obs_final"), case.get("bert"))
         self.reqs, self.replies = [], []
+        self.runaway = False
+        self.transport_bert = case["szx0"] == 7
         self.fresh_remote = case.get("fresh_remote", True)
         outcome = self.loop.run_until_complete(self._transfer(case))
         return {"reqs": self.reqs, "replies": self.replies, "outcome": outcome,
@@ -240,7 +272,7 @@ def soutcome(o):
         return "ok:%d:%s:%s" % (o[1], setag(o[2]), hx(o[3]))
     if o[0] == "err":
         return "err:" + o[1]
-    return "pending"
+    return o[0]                     # "pending" / "runaway"
 
 
 def shint(h):
@@ -286,6 +318,14 @@ def oracle(case, obs):
         kind = kind or "stall"
     method = CODES[case.get("method", "PUT")]
 
+    # "the request ends": with a response or with an error -- whatever the server does, a request that is still
+    # exchanging blocks after MAX_EXCHANGES exchanges (no body of the generators needs that many) does not
+    if out[0] == "runaway":
+        last = obs["reqs"][-1]
+        same = sum(1 for v in obs["reqs"] if v[:2] == last[:2])
+        return ("the request does not terminate (server: %s): %d requests and no end, the last one for Block1 %r / "
+                "Block2 %r, which was asked for %d times" % (kind or "conforming", out[1], last[0], last[1], same)), \
+            "never-terminates:" + (kind or "conforming")
     # fail loudly = with an aiocoap error, whatever the server does
     if out[0] == "err" and not out[2]:
         return ("request ended with %s, which is not an aiocoap.error.Error (server: %s)"
@@ -296,12 +336,13 @@ def oracle(case, obs):
     off = 0
     hint1, hint2 = case.get("hint1"), case.get("hint2")
     last_szx = case["szx0"] if hint1 is None else hint1
-    # upload phase: the requests that do not ask for a LATER block of the response (no Block2 option, or the
-    # application's size hint, which has block number 0)
-    b1_reqs = [v for v in obs["reqs"] if v[1] is None or v[1][0] == 0]
-    b2_reqs = [v for v in obs["reqs"] if v[1] is not None and v[1][0] != 0]
-    if obs["reqs"][:len(b1_reqs)] != b1_reqs:
-        return "a Block1-phase request was sent after the Block2 phase began", "wire:phase-order"
+    # upload phase: the requests up to the one whose response carried the first Block2 option (the first block of
+    # the response body); what follows asks for the LATER blocks of the response.  (Equivalently, as long as the
+    # client never asks for block 0 again: the requests without Block2 option or with the application's size
+    # hint, which has block number 0.)
+    b1_reqs, b2_reqs = split_phases(obs)
+    if any(v[1] is not None and v[1][0] != 0 for v in b1_reqs):
+        return "a request of the upload phase asks for a later block of the response", "wire:phase-order"
     want_b2 = None if hint2 is None else (0, False, hint2)
     for i, (b1, b2, size1, data, code, path, observe) in enumerate(b1_reqs):
         if code != method or path != ("c05", "res"):
@@ -315,19 +356,27 @@ def oracle(case, obs):
             off = len(data)
             continue
         num, more, szx = b1
-        size = 16 << szx
+        # the unit the block number counts in: 2**(szx+4) bytes, 1024 for BERT (RFC 8323 section 6)
+        size = ref.usize(szx)
         if szx > last_szx:
             return "Block1 size exponent grew from %d to %d at request %d" % (last_szx, szx, i), "wire:b1-szx-grows"
         last_szx = szx
         if num * size != off:
             return ("Block1 request %d: NUM %d x size %d = %d is not the offset %d reached so far"
                     % (i, num, size, num * size, off)), "wire:b1-offset"
-        if data != payload[off:off + size]:
+        if szx == 7:
+            # a BERT block: one or more whole KiB while more follow, never more than the remote takes
+            if data != payload[off:off + len(data)] or (not data and payload):
+                return "BERT Block1 request %d does not carry payload[%d:%d]" % (i, off, off + len(data)), "wire:b1-bytes"
+            if len(data) > case["mps"]:
+                return ("BERT Block1 request %d carries %d bytes, the remote's maximum payload size is %d"
+                        % (i, len(data), case["mps"])), "wire:b1-bert-too-long"
+        elif data != payload[off:off + size]:
             return "Block1 request %d does not carry payload[%d:%d]" % (i, off, off + size), "wire:b1-bytes"
         if more != (off + len(data) < len(payload)):
             return "Block1 request %d: more flag %s but %d bytes remain" % (
                 i, more, len(payload) - off - len(data)), "wire:b1-more"
-        if more and len(data) != size:
+        if more and (len(data) != size if szx < 7 else (not data or len(data) % 1024)):
             return "Block1 request %d: non-final block of %d bytes at size %d" % (i, len(data), size), "wire:b1-len"
         if not more and i != len(b1_reqs) - 1:
             return "Block1 request %d without more flag is not the last" % i, "wire:b1-final-not-last"
@@ -336,6 +385,8 @@ def oracle(case, obs):
     # client's maximum, never larger than what the server used last
     got = None
     for i, (b1, b2, size1, data, code, path, observe) in enumerate(b2_reqs):
+        if b2 is None:
+            return ("request %d after the first block of the response carries no Block2 option" % i), "wire:phase-order"
         num, more, szx = b2
         if code != method or path != ("c05", "res"):
             return "Block2 request %d does not repeat method/Uri-Path" % i, "wire:method-path"
@@ -347,9 +398,17 @@ def oracle(case, obs):
         idx = len(b1_reqs) + i          # index of this request = number of replies before it
         prior = obs["replies"][len(b1_reqs) - 1:idx]
         got = sum(len(r.payload) for r in prior)
-        if num * (16 << szx) != got:
+        if num == 0:
+            return ("Block2 request %d asks for block 0 again after the first block of the response had arrived "
+                    "(%d bytes received so far)" % (i, got)), "wire:b2-not-advancing"
+        if num * ref.usize(szx) != got:
             return ("Block2 request %d: NUM %d x size %d = %d but %d bytes were received so far"
-                    % (i, num, 16 << szx, num * (16 << szx), got)), "wire:b2-offset"
+                    % (i, num, ref.usize(szx), num * ref.usize(szx), got)), "wire:b2-offset"
+        # offsets are contiguous: the same block is never asked for twice
+        if i > 0 and num * ref.usize(szx) <= b2_reqs[i - 1][1][0] * ref.usize(b2_reqs[i - 1][1][2]):
+            return ("Block2 request %d asks for offset %d again (the request before it asked for %d)"
+                    % (i, num * ref.usize(szx), b2_reqs[i - 1][1][0] * ref.usize(b2_reqs[i - 1][1][2]))), \
+                "wire:b2-not-advancing"
         if prior[-1].block2 is not None and szx > prior[-1].block2[2]:
             return "Block2 request %d: exponent %d above the server's last %d" % (i, szx, prior[-1].block2[2]), "wire:b2-szx-above-server"
         # "the size exponent never grows", literally, along the Block2 options of ALL the client's requests: the
@@ -405,7 +464,7 @@ def oracle(case, obs):
             return ("the server ended the transfer with the response (code %d, ETag %r, %d bytes) (%s) but the caller "
                     "got (code %d, ETag %r, %d bytes)" % (srv.expected[0], srv.expected[1], len(srv.expected[2]), kind,
                                                          out[1], out[2], len(out[3]))), "single-response-altered:" + kind
-        if kind in ref.ENDS_UPLOAD and any(v[1] is None or v[1][0] == 0 for v in obs["reqs"][srv.trigger_index + 1:]):
+        if kind in ref.ENDS_UPLOAD and len(b1_reqs) > srv.trigger_index + 1:
             return "the upload went on after the server's final answer (%s)" % kind, "upload-continued:" + kind
         if kind == "ignore_block1" and srv.hit_final and is_success(srv.expected[0]) and srv.recorded != [payload]:
             # only the echo of the final block's option was missing: the body had been sent completely
@@ -419,6 +478,14 @@ def oracle(case, obs):
     raise HarnessError("oracle has no rule for server kind %r" % (kind,))
 
 
+def split_phases(obs):
+    """(requests of the upload phase, requests for later blocks of the response)"""
+    first = next((i for i, r in enumerate(obs["replies"]) if r.block2 is not None), None)
+    if first is None:
+        return list(obs["reqs"]), []
+    return list(obs["reqs"][:first + 1]), list(obs["reqs"][first + 1:])
+
+
 def is_success(code):
     return 64 <= code < 96
 
@@ -428,7 +495,7 @@ def is_success(code):
 # ------------------------------------------------------------------------------------------
 def mk(plen=0, rlen=0, szx0=6, mps=1124, choices=(), default=(6, False), etag="c0ffee", code=69,
        mis=None, limit=None, pseed=1, rseed=2, method="PUT", fresh_remote=True, observe=False,
-       obs_final=None, hint1=None, hint2=None):
+       obs_final=None, hint1=None, hint2=None, bert=None):
     c = {"plen": plen, "pseed": pseed, "rlen": rlen, "rseed": rseed, "etag": etag, "code": code,
          "szx0": szx0, "mps": mps, "choices": [list(x) for x in choices], "default": list(default),
          "method": method, "fresh_remote": fresh_remote}
@@ -441,10 +508,12 @@ def mk(plen=0, rlen=0, szx0=6, mps=1124, choices=(), default=(6, False), etag="c
         c["mis"] = mis
     if limit is not None:
         c["limit"] = limit
+    if bert is not None:
+        c["bert"] = bert             # the server is a BERT peer: it uses exponent 7 itself, blocks of `bert` KiB
     if hint2 is not None:
         c["hint2"] = hint2           # the application's request carries block2=(0, False, hint2)
     if hint1 is not None:
-        c["hint1"] = hint1           # ... carries block1=(0, False, hint1) (deprecated size hint; oracle only)
+        c["hint1"] = hint1           # ... carries block1=(0, False, hint1) (deprecated size hint)
     if observe:
         c["observe"] = True          # the application request carries Observe:0
         if obs_final is not None:
@@ -615,6 +684,7 @@ def boundary_cases():
             for szx in (0, 3):
                 cases.append(mk(plen=0, rlen=100 if szx == 0 else 900, szx0=6, default=(szx, False), method="GET",
                                 etag=before, mis={"kind": "etag_change", "n": n, "etag": after}))
+    cases += bert_cases() + persistent_cases()
     for cut in (0, 1, 14, 15):
         for n in (0, 1, 2):
             cases.append(mk(plen=0, rlen=100, szx0=6, default=(0, False), method="GET",
@@ -623,6 +693,92 @@ def boundary_cases():
         for n in (0, 1, 6):
             cases.append(mk(plen=0, rlen=100, szx0=6, default=(0, False), method="GET",
                             mis={"kind": "long_block", "n": n, "extra": extra}))
+    return cases
+
+
+BERT_LENGTHS = [0, 1, 1023, 1024, 1025, 1124, 1125, 2047, 2048, 2049, 2148, 2149, 3000, 4096, 4097, 4196, 4197,
+                5121]
+
+
+def bert_cases():
+    """A remote with maximum_block_size_exp 7 (a reliable transport, RFC 8323): the client's first Block1 block
+    is a BERT block of 1024 * (maximum_payload_size // 1024) bytes.  Servers: size exponents 0..6 (they understand
+    the BERT request and ask for / use their own size at the first or a later block), and BERT peers (exponent 7
+    echoed, Block2 blocks of k KiB) that reduce in mid-transfer."""
+    cases = []
+    for mps in (1124, 2148, 4196):
+        for L in BERT_LENGTHS:
+            # the server's exponent in its first acknowledgement: 6 / one below / small; a second reduction later
+            for ch, d in ((((6, False),), (6, False)), (((5, False),), (5, False)), (((6, False), (6, False), (3, False)), (3, False)),
+                          (((2, False),), (2, False)) if L <= 3000 else (((4, False),), (4, False))):
+                cases.append(mk(plen=L, rlen=5, szx0=7, mps=mps, choices=ch, default=d, code=68))
+            # a BERT peer: keeps 7, or reduces at the second / third block to 6 / 4 (7 -> 6 keeps the unit)
+            for ch, d in (((), (7, False)), (((7, False), (6, False)), (6, False)),
+                          (((7, False), (7, False), (4, False)), (4, False)), (((7, False), (2, False)), (2, False))):
+                cases.append(mk(plen=L, rlen=5, szx0=7, mps=mps, choices=ch, default=d, code=68, bert=2))
+    # downloads to a BERT client: from servers with exponents 0..6, from BERT peers (blocks of 1, 2, 4 KiB) that
+    # keep 7 or go down to 6 / 3 in mid-transfer
+    for L in BERT_LENGTHS:
+        for ssz in (0, 4, 6) if L <= 3000 else (3, 6):
+            cases.append(mk(plen=0, rlen=L, szx0=7, default=(ssz, L % 2 == 0), method="GET"))
+        for kib in (1, 2, 4):
+            cases.append(mk(plen=0, rlen=L, szx0=7, mps=4196, default=(7, L % 2 == 1), method="GET", bert=kib))
+            cases.append(mk(plen=0, rlen=L, szx0=7, mps=4196, choices=((7, False), (7, False), (6, False)),
+                            default=(6, False), method="GET", bert=kib, etag=None))
+            cases.append(mk(plen=0, rlen=L, szx0=7, mps=4196, choices=((7, False), (3, False)),
+                            default=(3, False), method="GET", bert=kib))
+    # both directions, with the application's size hint (also 7)
+    for (L, R) in ((1125, 2049), (4197, 4097), (10, 5000)):
+        for h in (None, 7, 6, 2):
+            cases.append(mk(plen=L, rlen=R, szx0=7, mps=2148, default=(6, False), method="POST", hint2=h))
+            cases.append(mk(plen=L, rlen=R, szx0=7, mps=2148, default=(7, False), method="FETCH", hint2=h, bert=1,
+                            choices=((7, False), (7, False), (5, False)), fresh_remote=False))
+    # a BERT client limited by the deprecated Block1 hint / a UDP-sized client against a BERT-labelled first block
+    for h1 in (7, 6, 0):
+        cases.append(mk(plen=3000, rlen=5, szx0=7, mps=2148, default=(6, False), hint1=h1, code=68))
+        if h1 < 7:
+            cases.append(mk(plen=3000, rlen=5, szx0=6, mps=2148, default=(6, False), hint1=h1, code=68))
+    for szx0 in (6, 3):
+        cases.append(mk(plen=0, rlen=5000, szx0=szx0, default=(7, False), method="GET", bert=2))
+    # the deprecated Block1 size hint with bodies of 0, 1, one block, one block + 1 bytes (body length 0 is a
+    # body length like every other)
+    for h1 in range(7):
+        for L in (0, 1, 16 << h1, (16 << h1) + 1):
+            for method in ("PUT", "FETCH"):
+                cases.append(mk(plen=L, rlen=40 if method == "FETCH" else 0, szx0=6, default=(6, False), hint1=h1,
+                                method=method, code=69 if method == "FETCH" else 68))
+    # every deviation kind against a BERT client: server with exponents 0..6 and BERT peer
+    for kind in ref.KINDS:
+        for bert, ssz in ((None, 6), (2, 7)):
+            for n in (0, 1, 2):
+                for (L, R) in ((2100, 3000), (1125, 2049)):
+                    if kind == "stall":
+                        cases.append(mk(plen=L, rlen=R, szx0=7, mps=2148, default=(ssz, False), limit=n, bert=bert))
+                    else:
+                        cases.append(mk(plen=L, rlen=R, szx0=7, mps=2148, default=(ssz, False), bert=bert,
+                                        choices=((7, False), (7, False), (ssz, False)),
+                                        mis={"kind": kind, "n": n}))
+    return cases
+
+
+def persistent_cases():
+    """servers that go on violating a rule: `hollow` (from the n-th Block2 response on every block says "more" and
+    is empty) and `confused` (pieces of 2x / 3x the announced size, numbered as pieces) -- a client that accepts
+    them never ends, or returns a body with holes"""
+    cases = []
+    for n in (0, 1, 2, 3):
+        for (szx0, ssz, bert, mps) in ((6, 6, None, 1124), (6, 0, None, 1124), (2, 6, None, 1124), (0, 0, None, 1124),
+                                       (7, 6, None, 2148), (7, 2, None, 1124), (7, 7, 1, 1124), (7, 7, 2, 4196)):
+            for (L, R, method) in ((0, 5000, "GET"), (0, 700, "GET"), (1125, 3000, "POST"), (0, 10, "GET")):
+                cases.append(mk(plen=L, rlen=R, szx0=szx0, mps=mps, default=(ssz, R < 100), method=method, bert=bert,
+                                mis={"kind": "hollow", "n": n}))
+    for mult in (2, 3, 4):
+        for (szx0, ssz) in ((6, 2), (6, 6), (2, 6), (0, 0), (7, 6), (7, 0), (5, 3)):
+            for (L, R, method) in ((0, 700, "GET"), (0, 5000, "GET"), (40, 4096, "POST"), (0, 128, "GET"), (0, 129, "GET")):
+                if R // (16 << min(szx0, ssz)) > 120:
+                    continue
+                cases.append(mk(plen=L, rlen=R, szx0=szx0, default=(ssz, False), method=method,
+                                mis={"kind": "confused", "mult": mult}, etag=None if mult == 3 else "c0ffee"))
     return cases
 
 
@@ -639,7 +795,8 @@ def near_boundary(rng):
 
 
 def random_case(rng):
-    szx0 = rng.randrange(7)
+    szx0 = rng.randrange(8)
+    bert = rng.choice([None, 1, 2, 4]) if szx0 == 7 else None
     plen, rlen = near_boundary(rng), near_boundary(rng)
     if rng.random() < 0.3:
         plen = 0
@@ -648,23 +805,24 @@ def random_case(rng):
     # keep the number of exchanges bounded
     while plen // (16 << szx0) > 160:
         plen //= 2
-    ssz = rng.randrange(7)
+    ssz = rng.randrange(8 if bert else 7)
     while rlen // (16 << min(ssz, szx0)) > 160:
         rlen //= 2
     # random walk of the server's exponent: stays, steps down, occasionally jumps up again (the
     # request's exponent caps it)
     choices = []
-    cur = rng.choice([6, 6, ssz, szx0])
+    top = 8 if bert else 7
+    cur = min(rng.choice([6, 6, ssz, szx0]), top - 1)
     for _ in range(rng.randrange(0, 12)):
         r = rng.random()
         if r < 0.25 and cur > 0:
             cur -= rng.randrange(1, cur + 1)
         elif r < 0.3:
-            cur = rng.randrange(7)
+            cur = rng.randrange(top)
         choices.append((cur, rng.random() < 0.3))
     mis = None
     limit = None
-    if rng.random() < 0.4:
+    if rng.random() < 0.35:
         kind = rng.choice(ref.KINDS)
         if kind == "stall":
             limit = rng.randrange(0, 6)
@@ -694,6 +852,9 @@ def random_case(rng):
                 mis["diag"] = rng.randrange(0, 8)
             if kind == "first_above_hint":
                 mis["by"] = rng.choice([1, 1, 2, 6])
+            if kind == "confused":
+                mis["mult"] = rng.choice([2, 2, 3, 5])
+                mis.pop("n")
             if kind == "observe_continue":
                 mis["oval"] = rng.choice([0, 1, 7, 1 << 23])
                 if rng.random() < 0.4:
@@ -707,16 +868,18 @@ def random_case(rng):
     if mis and mis["kind"] == "first_above_hint":
         hint2 = rng.randrange(6)
     elif rng.random() < 0.15:
-        hint2 = rng.randrange(7)
+        hint2 = rng.randrange(8 if szx0 == 7 else 7)
     if hint2 is not None:
         while rlen // (16 << min(hint2, ssz, szx0)) > 160:
             rlen //= 2
-    if plen and rng.random() < 0.04:
-        hint1 = rng.randrange(7)
+    if rng.random() < 0.04:
+        hint1 = rng.randrange(8 if szx0 == 7 else 7)
         while plen // (16 << hint1) > 160:
             plen //= 2
     return mk(observe=observe, hint1=hint1, hint2=hint2, obs_final=rng.choice([None, None, 1, 77]),
-              plen=plen, rlen=rlen, szx0=szx0, mps=rng.choice([1124, 1124, 1124, 1024, 1200]),
+              plen=plen, rlen=rlen, szx0=szx0, bert=bert,
+              mps=rng.choice([1124, 1124, 2148, 4196, 1200, 1024]) if szx0 == 7 else
+              rng.choice([1124, 1124, 1124, 1024, 1200]),
               choices=choices, default=(min(cur, ssz), rng.random() < 0.3),
               etag=rng.choice([None, "01", "c0ffee", "0102030405060708"]),
               code=rng.choice([69, 68, 65, 67, 69]), mis=mis, limit=limit,
@@ -730,16 +893,18 @@ def blockopt_lines(world, rng, n):
     from aiocoap.optiontypes import BlockOption
     T = BlockOption.BlockwiseTuple
     cases = []
-    for szx in range(7):
-        for mx in range(7):
+    for szx in range(8):
+        unit = 16 << min(szx, 6)
+        for mx in range(8):
             for num in (0, 1, 2, 3, 40, 1000):
                 for more in (0, 1):
-                    for ps in (0, (16 << szx) - 1, 16 << szx, (16 << szx) + 1):
+                    for ps in (0, 1, unit - 1, unit, unit + 1, 2 * unit - 1, 2 * unit, 2 * unit + 1, 3 * unit, 5000):
                         cases.append((num, more, szx, mx, ps))
     for _ in range(n):
-        szx = rng.randrange(7)
-        cases.append((rng.randrange(1 << 20), rng.randrange(2), szx, rng.randrange(7),
-                      max(0, (16 << szx) + rng.randrange(-20, 20))))
+        szx = rng.randrange(8)
+        unit = 16 << min(szx, 6)
+        cases.append((rng.randrange(1 << 20), rng.randrange(2), szx, rng.randrange(8),
+                      max(0, unit * rng.randrange(0, 4) + rng.choice([0, 0, 0, rng.randrange(-20, 20)]))))
     lines, outs = [], []
     for (num, more, szx, mx, ps) in cases:
         t = T(num, bool(more), szx)
@@ -757,7 +922,7 @@ def run(env, rep):
         ncorpus = len(cases)
         cases += boundary_cases()
         nboundary = len(cases) - ncorpus
-        cases += [random_case(env.rng) for _ in range(env.scale(1500, 40000))]
+        cases += [random_case(env.rng) for _ in range(env.scale(1000, 40000))]
         rep.exhaustive_parts.append("boundary table: %d cases enumerated in full" % nboundary)
 
         rl, ro, rc, il, io, ic = [], [], [], [], [], []
@@ -775,12 +940,21 @@ def run(env, rep):
                     rep.count("triggered:" + kind)
             rep.count("outcome=" + (obs["outcome"][0] if obs["outcome"][0] != "err" else "err:" + obs["outcome"][1]))
             rep.count("client-szx=%d" % case["szx0"])
+            if case["szx0"] == 7:
+                rep.count("bert-client:server=" + ("bert-peer" if case.get("bert") else "szx0..6"))
+                if any(v[0] is not None and v[0][2] == 7 for v in obs["reqs"]) and \
+                        any(v[0] is not None and v[0][2] < 7 for v in obs["reqs"]):
+                    rep.count("bert-upload-reduced-to-%s" % ("6" if any(v[0] is not None and v[0][2] == 6 for v in obs["reqs"]) else "below-6"))
+                if any(r.block2 is not None and r.block2[2] == 7 and r.block2[1] for r in obs["replies"]):
+                    rep.count("bert-download")
+            if case.get("hint1") is not None and case["plen"] == 0:
+                rep.count("block1-hint:empty-body")
             if case.get("hint2") is not None:
                 first = next((r.block2[2] for r in obs["replies"] if r.block2 is not None and r.block2[0] == 0), None)
                 rep.count("block2-hint:first-block=" + ("none" if first is None else "below" if first < case["hint2"]
                                                         else "equal" if first == case["hint2"] else "above"))
             if case.get("hint1") is not None:
-                rep.count("block1-hint(oracle-only)")
+                rep.count("block1-hint")
             if kind == "ignore_block1" and obs["server"].triggered:
                 rep.count("no-block1-response:%s:%s->%s" % (
                     "final" if obs["server"].hit_final else "non-final",
@@ -805,7 +979,9 @@ def run(env, rep):
             if verdict:
                 rep.oracle_fail(case, verdict, key=key)
             rl.append(r_line(case, obs)); ro.append(r_out(obs)); rc.append(case)
-            if kind is None or kind == "stall":
+            if (kind is None or kind == "stall") and case.get("bert") is None:
+                # (the Lean reference server's own exponents are 0..6; BERT peers are judged by the oracle and
+                # compared through `runClient`)
                 il.append(i_line(case, obs)); io.append(i_out(obs)); ic.append(case)
         if malformed * 2 > len(cases):
             raise HarnessError("misbehaving stream exceeds 50 % of the cases")
@@ -822,7 +998,9 @@ def run(env, rep):
                       "upload=unfragmented", "upload=blockwise", "download=single", "download=blockwise",
                       "request-with-observe:final=observable", "request-with-observe:final=plain",
                       "observe-in-intermediate-2.31", "block2-hint:first-block=below", "block2-hint:first-block=equal",
-                      "block2-hint:first-block=above", "block1-hint(oracle-only)",
+                      "block2-hint:first-block=above", "block1-hint", "block1-hint:empty-body",
+                      "client-szx=7", "bert-client:server=bert-peer", "bert-client:server=szx0..6",
+                      "bert-upload-reduced-to-6", "bert-upload-reduced-to-below-6", "bert-download",
                       "no-block1-response:non-final:success->error", "no-block1-response:non-final:failure->exact",
                       "no-block1-response:final:success->exact", "no-block1-response:final:failure->exact"]
                      + ["triggered:" + k for k in ref.KINDS]):
